@@ -15,7 +15,7 @@ ASSUMPTIONS = TRUSTED_BASE + [
     "of an initial path or of the path replaced in that very step; initial paths are never queued",
     "proved (E1, all path and list lengths; uses the executor's try/except support: an index beyond a list FORKS into the IndexError handler): Path.update_energies gives frame k element k of each energy list and None where the list is shorter, "
     "changes nothing else and never raises (precondition from the call sites: the frames of one path are distinct objects)",
-    "bounded native: PathStorage.output followed by load_path for multi-file paths, reversed frames, missing energies, revisited files, one file referenced in both velocity directions, and every (file, direction) assignment of a 3-frame path over two files: same length, frame references (basename, index, velocity direction), energies, orders to 6 decimals, every file under the path's own directory",
+    "bounded native: PathStorage.output followed by load_path for multi-file paths, reversed frames, missing energies, revisited files, one file referenced in both velocity directions, and every (file, direction) assignment of a 3-frame path over two files (thorough: 4-frame paths too): same length, frame references (basename, index, velocity direction), energies, orders to 6 decimals, every file under the path's own directory",
     "file names without whitespace (traj.txt is whitespace separated); distinct source files have distinct basenames (the engines' naming scheme <ens>_<pid>_<counter>_traj[BF])",
 ]
 EXPLANATION = (
@@ -105,6 +105,23 @@ for _n, _combo in enumerate(__import__("itertools").product([(f, r) for f in ("e
     CASES[f"enum3_{_n:02d}"] = [(f, k, r, 0.25 * k - 0.5) for k, (f, r) in enumerate(_combo)]
 
 
+def _enum_cases(nframes):
+    """Every assignment of (file, velocity direction) to the frames of an nframes-frame path over two files."""
+    import itertools
+    opts = [(f, r) for f in ("e1.xyz", "e2.xyz") for r in (False, True)]
+    return {f"enum{nframes}_{n:03d}": [(f, k, r, 0.25 * k - 0.5) for k, (f, r) in enumerate(combo)]
+            for n, combo in enumerate(itertools.product(opts, repeat=nframes))}
+
+
+def _case(name):
+    """Reconstruct a round-trip case from its name (replay files carry the name only)."""
+    if name in CASES:
+        return CASES[name]
+    if name.startswith("enum4_"):
+        return _enum_cases(4)[name]
+    raise KeyError(name)
+
+
 def store_load(spec, tier, seed):
     import importlib.util  # noqa: F401
     import os
@@ -112,7 +129,10 @@ def store_load(spec, tier, seed):
     import tempfile
     bad, n = None, 0
     cwd = os.getcwd()
-    for name, case in CASES.items():
+    cases = dict(CASES)
+    if tier == "thorough":
+        cases.update(_enum_cases(4))  # 256 more paths
+    for name, case in cases.items():
         for energies in (True, False):
             tmp = tempfile.mkdtemp(prefix="c14-", dir=os.environ.get("VERIF_SCRATCH", "/var/tmp"))
             try:
@@ -180,7 +200,7 @@ def replay(obname, w):
         cwd = os.getcwd()
         try:
             os.chdir(tmp)
-            errs = _roundtrip(tmp, CASES[w["case"]], 11, w["energies"])
+            errs = _roundtrip(tmp, _case(w["case"]), 11, w["energies"])
         except Exception as e:
             errs = [repr(e)]
         finally:
